@@ -9,5 +9,5 @@ cd /verif
 python3 vcheck.py "$PROP" --tier "$TIER" > /tmp/try_seed_out.txt 2>&1
 rc=$?
 cd /repo && git checkout -- . 
-grep -E "^(VIOLATION|INCONCLUSIVE|KNOWN|C[0-9]+ tier)|signature" /tmp/try_seed_out.txt | cut -c1-250 | head -${LINES_MAX:-12}
+grep -a -E "^(VIOLATION|INCONCLUSIVE|KNOWN|C[0-9]+ tier)|signature" /tmp/try_seed_out.txt | cut -c1-250 | head -${LINES_MAX:-12}
 echo "exit=$rc"
